@@ -63,7 +63,7 @@ def mutations(rng, doc, per_path: int = 3, max_total: int = 400):
     rng.shuffle(paths)
     for p in paths:
         old = gen.get_path(doc, p)
-        name = ".".join("*" if isinstance(x, int) or (len(x) == 64) else x for x in p)
+        name = ".".join("*" if not isinstance(x, str) or (len(x) == 64) else x for x in p)
         out.append((gen.del_path(doc, p), "delete:" + name))
         if old is not None:
             # null is how other tooling spells "not set": tried at every path, not sampled
